@@ -28,6 +28,7 @@ let dirs s = List.filter_map (fun it -> match String.split_on_char ':' it with
     | [_; _] -> None | _ -> failwith "bad obst") (split_c s)
 let stales s = List.filter_map (fun it -> match String.split_on_char ':' it with
     | [p; k] when String.length k > 1 && k.[0] = 'f' -> Some (n_of_int (int_of_string p), n_of_int (oct (String.sub k 1 (String.length k - 1))))
+    | [p; k] when String.length k > 1 && k.[0] = 'l' -> Some (n_of_int (int_of_string p), N0)   (* stale SYMLINK: discarded like any leftover *)
     | _ -> None) (split_c s)
 let faults_of m = {
   f_fail = List.map (fun s -> n_of_int (int_of_string s)) (split_c (get m "fail"));
@@ -93,7 +94,7 @@ let hex_of l = if l = [] then "-" else String.concat "" (List.map (fun x -> Prin
 let () =
   let variant = if Array.length Sys.argv > 3 then Sys.argv.(3) else "repaired" in
   let v = match variant with
-    | "repaired" | "reuses_stale" -> repaired | "pre_31f4cb6" -> pre_31f4cb6
+    | "repaired" | "pre_97a5489" -> repaired | "pre_31f4cb6" -> pre_31f4cb6
     | "pre_88f69f7" -> pre_88f69f7 | "pre_b6afef3" -> pre_b6afef3
     | "keeponly" -> { v_mode_fix = true; v_curm_fix = true; v_keep_fix = true; v_stale_fix = false; v_same_fix = false }
     | "staleonly" -> { v_mode_fix = true; v_curm_fix = true; v_keep_fix = false; v_stale_fix = true; v_same_fix = false }
@@ -120,7 +121,7 @@ let () =
       let tbl = List.map (fun it -> let i = String.index it ':' in
           (int_of_string (String.sub it 0 i), file_of_spec (String.sub it (i+1) (String.length it - i - 1)))) (split_c fsi) in
       let f q = match List.assoc_opt (int_of_n q) tbl with Some x -> x | None -> None in
-      let w = ref ((if variant = "reuses_stale" then init_world_reusing else init_world) (n_of_int (int_of_string ver)) f) in
+      let w = ref ((if variant = "pre_97a5489" then init_world_pre_97a5489 else init_world) (n_of_int (int_of_string ver)) f) in
       let ops = split_ops rest [] [] in
       let opno = ref (-1) in
       let segs = List.map (fun o ->
